@@ -659,11 +659,16 @@ pub struct LimitsOracle {
     vanished_at: BTreeMap<SocketAddr, u64>,
     /// last datagram that reached a server's socket from an address
     last_heard: BTreeMap<(usize, SocketAddr), u64>,
+    /// the server's table as of its previous probe: (server, address) -> (state, server nonce)
+    table_before: BTreeMap<(usize, SocketAddr), (u8, Option<u32>)>,
+    /// ServerFull refusals that left during the current call: (server, address refused)
+    full_sent: Vec<(usize, SocketAddr)>,
+    refusals_checked: u64,
 }
 
 impl LimitsOracle {
     pub fn new(property: &'static str) -> Self {
-        Self { property, active: BTreeSet::new(), max_active_seen: 0, max_total_seen: 0, checks: 0, refusals: 0, server_full_events: BTreeSet::new(), client_connects: BTreeSet::new(), client_errors: BTreeMap::new(), ended: 0, overlapping_syns: 0, pending_now: 0, tracked_now: 0, closed_since: BTreeMap::new(), pending_since: BTreeMap::new(), vanished_at: BTreeMap::new(), last_heard: BTreeMap::new() }
+        Self { property, active: BTreeSet::new(), max_active_seen: 0, max_total_seen: 0, checks: 0, refusals: 0, server_full_events: BTreeSet::new(), client_connects: BTreeSet::new(), client_errors: BTreeMap::new(), ended: 0, overlapping_syns: 0, pending_now: 0, tracked_now: 0, closed_since: BTreeMap::new(), pending_since: BTreeMap::new(), vanished_at: BTreeMap::new(), last_heard: BTreeMap::new(), table_before: BTreeMap::new(), full_sent: Vec::new(), refusals_checked: 0 }
     }
 }
 
@@ -686,6 +691,7 @@ impl Oracle for LimitsOracle {
                     if let Some(uv::Frame::HandshakeErrorFrame(f)) = uv::Frame::read(&w.bytes) {
                         if f.error == uv::HandshakeErrorType::ServerFull {
                             self.refusals += 1;
+                            self.full_sent.push((w.src, w.dst_addr));
                         }
                     }
                 }
@@ -735,6 +741,24 @@ impl Oracle for LimitsOracle {
                 self.last_heard.insert((*dst, *src_addr), cx.now_ns);
             }
             Rec::Probe { call, ep, probe: Probe::Server(s), .. } => {
+                // ServerFull is for handshakes that would exceed a limit. An address that holds
+                // a slot of its own (its handshake is pending, or its connection established)
+                // before and after the call - the same entry, by its server nonce - exceeds
+                // nothing by repeating its SYN: it must not be told that the server is full
+                let now: BTreeMap<(usize, SocketAddr), (u8, Option<u32>)> = s.clients.iter().map(|c| ((*ep, c.address), (c.state, c.local_nonce))).collect();
+                for (srv, addr) in std::mem::take(&mut self.full_sent) {
+                    if srv != *ep {
+                        continue;
+                    }
+                    self.refusals_checked += 1;
+                    if let (Some(b), Some(a)) = (self.table_before.get(&(srv, addr)), now.get(&(srv, addr))) {
+                        if b == a && (b.0 == 0 || b.0 == 1) {
+                            return viol(prop, "refused_although_slot_held", format!("server {} answered {} with ServerFull although that address holds a slot of its own ({}, before and after the call): a repeated SYN of a tracked address exceeds no limit", ep, addr, if b.0 == 0 { "handshake pending" } else { "connection established" }), *call);
+                        }
+                    }
+                }
+                self.table_before.retain(|k, _| k.0 != *ep);
+                self.table_before.extend(now);
                 if let EndpointKind::Server { cfg, .. } = &cx.plan.endpoints[*ep].kind {
                     // an unacknowledged handshake is given up after its ten retransmissions
                     // (22 s on the server's clock, which may run 2 % fast or slow)
@@ -819,6 +843,7 @@ impl Oracle for LimitsOracle {
         let mut a = |k: &str, v: u64| *out.entry(k.to_string()).or_insert(0) += v;
         a("server_limit_checks", self.checks);
         a("server_full_refusals_on_wire", self.refusals);
+        a("server_full_refusals_checked_against_the_table", self.refusals_checked);
         a("connections_ended", self.ended);
         a("probes_with_two_or_more_pending_handshakes", self.overlapping_syns);
         let m = out.entry("max_active_seen".to_string()).or_insert(0);
